@@ -240,6 +240,8 @@ class Ref:
                 subs.append((x, self.compile_leaf(x, x["crossings"], x["mode"], x["alignment"]), x["alignment"]))
         if alignment is None:
             alignment = subs[0][2]
+        if len({x["rcc"] for x, _, _ in subs}) > 1:
+            self.amb("mixed-require-complete-crossing")      # the library takes all(...); the documentation only defines equal flags
         design = [n for n in self.order if any(n in x["design"] for x, _, _ in subs)]
         C = {"design": design, "unsat": False, "unspecified_T": False, "sustain": {}, "crossings": [], "checks": [], "mult": []}
         if any(c["unspecified_T"] for _, c, _ in subs):
@@ -380,6 +382,8 @@ class Ref:
         cs = b["constraints"]
         leaves = [x for x in S.iter_blocks(b) if x["type"] in ("cross", "multi")]
         self._note_cross_member_excludes(leaves, cs)
+        if len({x["rcc"] for x in leaves}) > 1:
+            self.amb("mixed-require-complete-crossing")
         design = [n for n in self.order if n in Co["design"] or n in Ci["design"]]
         C = {"design": design, "unsat": False, "unspecified_T": False, "sustain": {}, "crossings": [], "checks": [], "mult": []}
         if Co["unspecified_T"] or Ci["unspecified_T"]:
